@@ -185,6 +185,9 @@ def run(res: Results, idx: Index, tier: str) -> None:
         setattr(sub, "_nested_xref", True)
         mod.run(sub, idx, tier)
         for inst in sub.instances:
+            # C04 R-C04b: only the "unknown operation raises" instance is about loud failure (the operator table is C04's)
+            if rid == "R-C04b" and not inst.key.endswith("::unknown-operation"):
+                continue
             if inst.rule == rid and ("raise" in inst.detail or "reject" in inst.detail or inst.status != "OK"):
                 n_x += 1
                 res.add("R-C16d", inst.status, inst.site, f"{rid}::{inst.key}", f"[{prop} {rid}] {inst.detail}", inst.func)
